@@ -445,3 +445,65 @@ def rule_cg_bounds(ctx, R):
             if p is not None:
                 R.finding(fn, "index-mutation:bounds-not-updated", "%s changes the pending index (line %d) and can return without updating the cached ID bounds" % (fn.split("::")[-1], b.bb_line(i)), b.loc(i))
     R.floor("pending_index_mutations", nm)
+
+
+def rule_st_amount(ctx, R):
+    """XLEN is a separate counter: the amount subtracted from it is the number of entries that
+    really left the vector -- (a) a counter incremented by one only after an actual removal call,
+    (b) a difference of the vector's len() before and after, or (c) the very bound of the
+    `drain(..n)` that removed them.  A count of *requested* IDs/positions is none of these."""
+    import rules_coll
+    n = 0
+    for fn, b in sorted(ctx.prog.bodies.items()):
+        if not (fn.startswith(SD) or fn.startswith(ST)) or b.kind == "Closure" or "::tests::" in fn:
+            continue
+        removals = recv_calls(b, ENTRIES, r"Vec::<storage::stream::StreamEntry>::(remove|pop|swap_remove)$")
+        drains = recv_calls(b, ENTRIES, r"Vec::<storage::stream::StreamEntry>::drain(::<.*>)?$")
+        for i, t in b.calls():
+            if not re.search(r"atomic::Atomic::<usize>::fetch_sub$", t["f"] or "") or len(t["a"]) < 2:
+                continue
+            if "storage::stream::Stream.length" not in prov.operand_origins(b, t["a"][0]).fields:
+                continue
+            n += 1
+            amt = t["a"][1]
+            ok = False; why = None
+            if op_is_const(amt):
+                ok = bool(removals) and all(cfg.dominates(b, r_, i) for r_ in removals[:1]); why = "constant after a removal"
+            else:
+                roots = rules_coll.copy_sources(b, amt)
+                # (a) counter incremented only after a removal
+                for l in roots:
+                    incs = rules_coll.self_increments(b, l)
+                    if incs and all(any(cfg.dominates(b, r_, y) or r_ == y for r_ in removals) for y in incs):
+                        ok = True; why = "counter incremented after each removal"
+                # (c) bound of the drain
+                for dcall in drains:
+                    td = b.term(dcall)
+                    if len(td["a"]) > 1 and not op_is_const(td["a"][1]):
+                        PR = prov.operand_origins(b, td["a"][1])
+                        dr = set()
+                        for kind, db, d in prov.build_defs(b).get(op_place(td["a"][1])["l"], ()):
+                            if kind == "stmt" and d["r"]["k"] == "agg":
+                                for o in d["r"]["o"]:
+                                    if not op_is_const(o):
+                                        dr |= rules_coll.copy_sources(b, o)
+                        if dr & roots:
+                            ok = True; why = "bound of the drain that removed the entries"
+                # (b) len difference
+                for l in roots:
+                    for kind, db, d in prov.build_defs(b).get(l, ()):
+                        src = d["r"] if kind == "stmt" else None
+                        if src and src["k"] == "use" and not op_is_const(src["o"]):
+                            for k2, db2, d2 in prov.build_defs(b).get(op_place(src["o"])["l"], ()):
+                                if k2 == "stmt" and d2["r"]["k"] == "bin":
+                                    src = d2["r"]
+                        if src and src["k"] == "bin" and src["op"].startswith("Sub"):
+                            PA = prov.operand_origins(b, src["a"]) if not op_is_const(src["a"]) else None
+                            PB = prov.operand_origins(b, src["b"]) if not op_is_const(src["b"]) else None
+                            if PA and PB and PA.has_call(r"Vec::<storage::stream::StreamEntry>::len$") and PB.has_call(r"Vec::<storage::stream::StreamEntry>::len$"):
+                                ok = True; why = "difference of the vector's length"
+            R.inst(fn, "length-decrement", {"function": fn, "at": b.loc(i), "amount_is_number_really_removed": ok, "why": why})
+            if not ok:
+                R.finding(fn, "length-decrement:amount-not-tied-to-removals",
+                          "%s subtracts from the XLEN counter (line %d) an amount that is not tied to the entries actually removed (not a per-removal counter, a len() difference or the drain bound): a request naming one ID twice, or an ID that is absent, makes XLEN differ from the entries present" % (fn.split("::")[-1], b.bb_line(i)), b.loc(i))
+    R.floor("length_decrements", n)
